@@ -1,5 +1,5 @@
 """C02 — type soundness: structural necessary conditions (DESIGN §4 C02)."""
-from hir import nodes, walk, fn_body, callee, last, line_of, peel, pp, norm_path, pat_alternatives, pat_variant
+from hir import nodes, walk, fn_body, callee, last, line_of, peel, pp, norm_path, pat_alternatives, pat_variant, pat_bindings
 from engines import matches_on, arm_alternatives, ty_is
 from flow import Flow
 import tc
@@ -62,6 +62,7 @@ def copy_discipline(F, rep, only_declaration=False, only_generalised=False):
         copy_discipline(F, scratch)
         for o in scratch.obs:
             if o["key"].startswith(("expression|Read|variable-type", "environment|")) or o["key"].endswith("|insertions") or \
+                    (o["rule"] == "COPY" and ("|Type::" in o["key"] or "|Constraint::" in o["key"])) or \
                     o["key"] == "expression|-|result-of-any-expression":
                 real.obs.append(o)
                 real.sites += 1
@@ -203,6 +204,18 @@ def _environment_shared(F, rep, copier):
            fn["sp"])
     if not seeded_from:
         return
+    # .. reachable means: along every edge the copy follows.  The function that lists a node's edges is the sibling of
+    # inner_copy and has to name the same payloads
+    walkers = {callee(c) for c in nodes(body, "MethodCall") if (callee(c) or "").startswith(TC) and
+               callee(c) not in (TC + "inner_copy", TC + "find", TC + "find_node", TC + "find_type")}
+    ne = 0
+    for w in sorted(walkers):
+        wf = F.fns.get(w)
+        if wf is None or wf.get("body") is None:
+            continue
+        ne += tc.edges_enumerated(F, rep, "COPY", wf, TCM.replace("typechecker::", "ty::") + "Type")
+        ne += tc.edges_enumerated(F, rep, "COPY", wf, TCM + "Constraint")
+    rep.floor("COPY", "type-graph edges enumerated by the reachability walk", ne, 20)
     # who keeps the surroundings: parameters enter before the body is checked and leave after it; definitions that are not
     # generalised enter
     fexpr = F.fn(TC + "expression")
@@ -374,6 +387,53 @@ def contradiction_info(F, rep):
     c04.index_targets_writable(F, rep, "Index" in accepted or "_" in accepted)
 
 
+def trailing_value_is_the_return(F, rep, rule):
+    """`a trailing expression means ret of that expression`: in the Function arm the value half of the body's
+    expression_block result is what gets unified with the explicit returns and the declared type - the very value, not a
+    filtered copy (one that is dropped when it is void, say: `fn -> int do if c do ret 1 end  note() end` would be accepted
+    while the same body ending in `ret note()` is not)."""
+    fexpr = F.fn(TC + "expression")
+    fl = Flow(fexpr, fn_body(fexpr))
+    n = 0
+    for arm, alt in tc.arm_of(F, fexpr, E, "Function"):
+        blocks = [c for c in nodes(arm["body"], "MethodCall") if callee(c) == TC + "expression_block"]
+        for c in nodes(arm["body"], "MethodCall"):
+            if callee(c) != TC + "unify_option" or len(c["args"]) < 4:
+                continue
+            ds = [tc.describe(fl, a) for a in c["args"][2:4]]
+            if not any(d.startswith(("blockvalue:", "blockret:")) or "block" in d for d in ds):
+                continue
+            n += 1
+        # every local that receives the value half: must be bound directly by the let that destructures expression_block's result
+        value_locals = []
+        for st in nodes(arm["body"], "Let"):
+            init = peel(st.get("init") or {})
+            if init.get("k") == "Try":
+                init = peel(init["e"])
+            if init.get("k") == "MethodCall" and callee(init) == TC + "expression_block":
+                bs = pat_bindings(st["pat"])
+                if len(bs) == 2:
+                    value_locals.append(bs[1])
+        rebinds = []
+        for vl in value_locals:
+            for st in nodes(arm["body"], "Let"):
+                bs = pat_bindings(st["pat"])
+                init = st.get("init")
+                if init is None or any(b["hid"] == vl["hid"] for b in bs):
+                    continue
+                if any(b["name"] == vl["name"] for b in bs) and any(x.get("hid") == vl["hid"] for x in nodes(init, "Path")):
+                    rebinds.append((st, vl["name"]))
+            for a_ in nodes(arm["body"], "Assign"):
+                t = peel(a_["l"])
+                if t.get("k") == "Path" and t.get("hid") == vl["hid"]:
+                    rebinds.append((a_, vl["name"]))
+        rep.ob(rule, "expression|Function|trailing-value-unfiltered", bool(value_locals) and not rebinds,
+               "the value of the body's trailing expression is unified with the returns as it comes from expression_block" if value_locals and not rebinds else
+               "the Function arm replaces the trailing value (`%s`) before it is compared with the explicit returns: a trailing expression "
+               "that is filtered out no longer means `ret` of that expression" % (rebinds[0][1] if rebinds else "?"),
+               line_of(rebinds[0][0]) if rebinds else line_of(arm))
+
+
 def value_paths(F, rep):
     """three places where an accepted program computes with nil because a *missing* value or return is treated as
     `compatible with anything` (Option<TyID> = None meets Some(t) in unify_option):"""
@@ -410,6 +470,28 @@ def value_paths(F, rep):
                    "the %s arm folds the branch values with unify_option, for which a branch *without* a value (None) matches "
                    "anything: `x := if c do 1 else do y := 2 end` gives x the type int although the else branch leaves nil" % v.lower(),
                    line_of(arm))
+            # .. and of *every* branch: a verdict that is overwritten on each turn of the loop over the branches only knows the last one
+            k_ = 0
+            for w, parents in walk(arm["body"]):
+                if w.get("k") not in ("Assign", "AssignOp"):
+                    continue
+                tgt = peel(w["l"])
+                if not (tgt.get("k") == "Path" and tgt.get("res") == "Local"):
+                    continue
+                looks = any(c["m"] in ("is_none", "is_some") and is_block_value(c["recv"]) for c in nodes(w["r"], "MethodCall"))
+                if not looks:
+                    continue
+                in_loop = any(p_.get("k") in ("ForLoop", "While", "Loop", "Closure") for p_ in parents
+                              if any(x is p_ for x in nodes(arm["body"])))
+                k_ += 1
+                accumulates = (w.get("k") == "AssignOp" and str(w.get("op", "")).startswith(("BitOr", "BitAnd", "Or", "And"))) or \
+                    any(x.get("k") == "Path" and x.get("hid") == tgt["hid"] for x in nodes(w["r"]))
+                ok_ = accumulates or not in_loop
+                rep.ob("VALUE-PATH", "expression|%s|every-branch-counts#%d" % (v, k_), ok_,
+                       "the verdict `%s` accumulates over the branches" % tgt.get("name") if ok_ else
+                       "inside the loop over the branches `%s` is overwritten (`=`) with whether *this* branch lacks a value: only the "
+                       "last branch decides, `y := case m do None -> n += 1 end Just x -> x end end` gives y the type int although the "
+                       "None branch leaves nil" % tgt.get("name"), line_of(w))
     # (2) a function with a declared return type must not fall off its end
     for arm, alt in tc.arm_of(F, fexpr, E, "Function"):
         guards_fall_off = False
@@ -422,6 +504,7 @@ def value_paths(F, rep):
                "the Function arm unifies the explicit returns with the body's trailing value when there is one and accepts a body "
                "that has `ret`s somewhere but can also run off its end: `f :: fn c: bool -> int do loop c do ret 1 end end` "
                "returns nil for f(false)", line_of(arm))
+    trailing_value_is_the_return(F, rep, "VALUE-PATH")
     # (3) the quotient of a division is only tied to the dividend by a constraint stored on the quotient
     back = False
     for c in nodes(fn_body(fexpr), "MethodCall"):
